@@ -380,6 +380,91 @@ def fmt_template(v):
     return out
 
 
+SIGN_PLUS = 1 << 21
+
+
+def fmt_template_ex(v):
+    """like fmt_template but each placeholder is ('arg', index, flags) (flags = core::fmt option word, 0 if none)"""
+    b = v.encode("latin-1")
+    i = 0
+    out = []
+    nxt = 0
+    while i < len(b):
+        n = b[i]
+        i += 1
+        if n == 0:
+            break
+        if n < 128:
+            out.append(("lit", b[i:i + n].decode("utf-8", "replace")))
+            i += n
+        elif n == 128:
+            ln = b[i] | (b[i + 1] << 8)
+            i += 2
+            out.append(("lit", b[i:i + ln].decode("utf-8", "replace")))
+            i += ln
+        else:
+            idx = None
+            flags = 0
+            if n & 1:
+                flags = int.from_bytes(b[i:i + 4], "little")
+                i += 4
+            if n & 2:
+                i += 2
+            if n & 4:
+                i += 2
+            if n & 8:
+                idx = b[i] | (b[i + 1] << 8)
+                i += 2
+            if idx is None:
+                idx = nxt
+            nxt = idx + 1
+            out.append(("arg", idx, flags))
+    return out
+
+
+def format_calls_ex(e):
+    """Every format_args! expansion under e: list of piece lists where a placeholder is
+    ('arg', {'e': argument expression, 'ty': its type, 'how': 'display'|'debug'|.., 'flags': int})."""
+    out = []
+    for blk in walk(e):
+        if blk.get("k") != "Block" or len(blk.get("stmts") or []) != 2 or blk.get("expr") is None:
+            continue
+        s0, s1 = blk["stmts"]
+        if not (s0.get("k") == "Let" and s1.get("k") == "Let" and (s0.get("exp") or "").startswith("desugar:FormatLiteral")):
+            continue
+        tup = peel(s0["init"])
+        arr = peel(s1["init"])
+        if tup.get("k") != "Tup" or arr.get("k") != "Array":
+            continue
+        exprs = []
+        for x in tup["elems"]:
+            x = peel(x)
+            exprs.append(x["e"] if x.get("k") == "AddrOf" else x)
+        hows = []
+        for c in arr["elems"]:
+            c = peel(c)
+            r = callee_of(c) or ""
+            a = peel(c["args"][0])
+            ai = int(a["name"]) if a.get("k") == "Field" else None
+            hows.append((short(r).replace("new_", ""), ai))
+        tmpl = None
+        for n in walk(blk["expr"]):
+            if n.get("k") == "Lit" and n["lit"]["t"] == "bytestr":
+                tmpl = fmt_template_ex(n["lit"]["v"])
+        if tmpl is None:
+            continue
+        pcs = []
+        for pc in tmpl:
+            if pc[0] == "lit":
+                pcs.append(pc)
+            else:
+                how, ai = hows[pc[1]]
+                ex = exprs[ai]
+                pcs.append(("arg", {"e": ex, "ty": (ex.get("ty") or "").lstrip("&"), "how": how, "flags": pc[2]}))
+        out.append(pcs)
+    return out
+
+
 def format_pieces(e):
     """All format templates (and plain literal format strings) inside expression e:
     list of piece lists."""
